@@ -177,7 +177,13 @@ MUTANTS = [
      "positions_left = [(message_original_time / step_size // 1) * step_size for step_size in step_sizes]", "quantise computes grid positions in floats"),
     ("c11b", "C11", S, "            length_bar = int(PPQN * (current_ts_numerator / (current_ts_denominator / 4)))",
      "            length_bar = PPQN * (current_ts_numerator / (current_ts_denominator / 4))", "bar length left as a float in the splitter"),
-    ("c11c", "C11", R, "                    msg.time = msg.time * factor", "                    msg.time = msg.time * float(factor)", "integer scaling multiplies waits by a float"),
+    ("c11c", "C11", R, """        if factor > 1:
+            for msg in self._messages:
+                if msg.message_type == MessageType.WAIT:
+                    msg.time = msg.time * factor""", """        if factor > 1:
+            for msg in self._messages:
+                if msg.message_type == MessageType.WAIT:
+                    msg.time = msg.time * float(factor)""", "integer scaling multiplies waits by a float"),
     ("c11d", "C11", A, "                        message_pairing[1].time = message_pairing[0].time + reduced_length", "                        message_pairing[1].time = message_pairing[0].time + reduced_length / 1",
      "cutoff writes a float end time"),
     # ---------------------------------------------------------------- C12
@@ -223,8 +229,8 @@ MUTANTS = [
                 # Remove double time signatures""", "normalise (used by merge): an inner note-off closes a fused note when a rest precedes it"),
     # ---------------------------------------------------------------- C16
     ("c16a", "C16", B, "        cpy = self.__class__(self.sequence.copy(),", "        cpy = self.__class__(self.sequence,", "Bar.copy shares the sequence"),
-    ("c16b", "C16", R, "    def split(self, capacities: list[int], copy_messages: bool = True) -> list[RelativeSequence]:",
-     "    def split(self, capacities: list[int], copy_messages: bool = False) -> list[RelativeSequence]:", "split shares messages by default"),
+    ("c16b", "C16", S, "    def split(self, capacities: list[int], copy_messages: bool = True) -> list[Sequence]:",
+     "    def split(self, capacities: list[int], copy_messages: bool = False) -> list[Sequence]:", "split shares messages by default"),
     ("c16c", "C16", S, "        sequences = [sequence.copy() for sequence in sequences_input]", "        sequences = [sequence for sequence in sequences_input]",
      "bar splitting works on the caller's sequences (bars share messages with the inputs)"),
     ("c16d", "C16", "scoda/elements/track.py", "        cpy = self.__class__([bar.copy() for bar in self.bars], self.name)", "        cpy = self.__class__([bar for bar in self.bars], self.name)",
